@@ -266,6 +266,54 @@ def _thread_try(F, t, off, boff, nH):
                                         {"k": "assign", "place": {"l": bl, "p": []}, "rv": _agg(CF, "Break", 1, [{"k": "move", "place": {"l": tl, "p": []}}])}], TB)
 
 
+def eta_expand_tail_results(crates):
+    """`fn f(..) -> Result<T, E> { ..; g(..) }` — the result of a local callee returned as is.  The rules speak of the blocks where a function
+    returns Ok / Err; `g(..)?; Ok(())` has them, the tail call does not.  The tail call is rewritten into the identity
+    `match g(..) { Ok(v) => Ok(v), Err(e) => Err(e) }` (and the same for Option), which makes both outcomes explicit blocks."""
+    n = 0
+    for j in crates:
+        for F in j["bodies"]:
+            if F["kind"] == "Promoted" or not F["locals"]:
+                continue
+            rty = F["locals"][0]["ty"]
+            if rty.startswith("std::result::Result<"):
+                adt, variants = "std::result::Result", [("Ok", True), ("Err", True)]
+            elif rty.startswith("std::option::Option<"):
+                adt, variants = "std::option::Option", [("None", False), ("Some", True)]
+            else:
+                continue
+            for bi in range(len(F["blocks"])):
+                t = F["blocks"][bi]["term"]
+                if not t or t["k"] != "call" or not t.get("fn") or not t["fn"].get("resolved_local") or t.get("target") is None:
+                    continue
+                d = t.get("dest")
+                if not d or d["l"] != 0 or d["p"] or t["fn"]["path"].endswith("from_residual"):
+                    continue
+                line = t.get("line")
+                F["locals"].append({"ty": rty, "mut": True})
+                tmp = len(F["locals"]) - 1
+                F["locals"].append({"ty": "isize", "mut": True})
+                dl = len(F["locals"]) - 1
+                old_target = t["target"]
+                arms = []
+                for vi, (vn, has) in enumerate(variants):
+                    ops = []
+                    if has:
+                        ops = [{"k": "move", "place": {"l": tmp, "p": [{"k": "downcast", "v": vn, "i": vi}, {"k": "field", "i": 0, "n": "0", "owner": adt, "ty": "?"}]}}]
+                    F["blocks"].append({"cleanup": False, "stmts": [{"k": "assign", "place": {"l": 0, "p": []}, "line": line, "exp": False,
+                                                                  "rv": {"k": "agg", "ak": "adt", "path": adt, "variant": vn, "vidx": vi, "fields": ["0"] if has else [], "ops": ops}}],
+                                        "term": {"k": "goto", "t": old_target, "line": line, "exp": False}, "eta": True})
+                    arms.append([str(vi), len(F["blocks"]) - 1])
+                F["blocks"].append({"cleanup": False, "stmts": [], "term": {"k": "unreachable", "line": line, "exp": True}, "eta": True})
+                un = len(F["blocks"]) - 1
+                F["blocks"].append({"cleanup": False, "stmts": [{"k": "assign", "place": {"l": dl, "p": []}, "rv": {"k": "discr", "place": {"l": tmp, "p": []}}, "line": line, "exp": True}],
+                                    "term": {"k": "switch", "discr": {"k": "move", "place": {"l": dl, "p": []}}, "discr_ty": "isize", "targets": arms, "otherwise": un, "line": line, "exp": True}, "eta": True})
+                t["dest"] = {"l": tmp, "p": []}
+                t["target"] = len(F["blocks"]) - 1
+                n += 1
+    return n
+
+
 def inline_unknown(crates, known):
     """crates: list of per-crate fact dicts (mutated in place).  Returns {helper id: [caller ids]}"""
     if not known:
